@@ -12,7 +12,7 @@
 # See the License for the specific language governing permissions and
 # limitations under the License.
 import ast
-from typing import List, Tuple, get_args
+from typing import List, Tuple, get_args, get_origin
 
 from sympy import Symbol, sympify
 from sympy.logic import ITE, And, Not, Or, Xor, false, true
@@ -397,11 +397,40 @@ def translate_expression(expr, env: Env) -> TExp:  # noqa: C901
                     return [b for el in v for b in flat_bits(el)]
                 return [v]
 
+            def type_size(t):
+                if get_origin(t) is tuple:
+                    return sum(type_size(x) for x in get_args(t))
+                return 1 if t is bool else t.BIT_SIZE
+
+            def fit_bits(bits, atype, ftype):
+                """Bits of the actual laid out as a value of the formal's type: the elements
+                of a tuple are zero extended one by one"""
+                if (
+                    get_origin(ftype) is tuple
+                    and get_origin(atype) is tuple
+                    and len(get_args(atype)) == len(get_args(ftype))
+                ):
+                    out: List = []
+                    i = 0
+                    for at, ft in zip(get_args(atype), get_args(ftype)):
+                        n = type_size(at)
+                        out += fit_bits(bits[i : i + n], at, ft)
+                        i += n
+                    return out
+
+                if get_origin(ftype) is tuple or get_origin(atype) is tuple:
+                    return bits
+
+                size = type_size(ftype)
+                if len(bits) > size:
+                    raise TypeErrorException(atype, ftype)
+                return bits + [False] * (size - len(bits))
+
             subs = {}
             for a, fa in zip(args, def_f[1]):
                 if isinstance(a[1], List):
                     # Bind the bits of the formal argument by position
-                    a_bits = flat_bits(a[1])
+                    a_bits = fit_bits(flat_bits(a[1]), a[0], fa.ttype)
                     if len(a_bits) > len(fa.bitvec):
                         raise TypeErrorException(a[0], fa.ttype)
 
